@@ -462,6 +462,12 @@ class Interp:
                 d = True
             elif ff:
                 d = False
+            elif c.cache.get('phase') == 'contract':
+                # the function under test has returned and the CONTRACT body is running spec-level code on this path: the path
+                # turns out to be infeasible (the cheap canary had not noticed).  Do not abort the whole task (that would silently
+                # drop every remaining path): mark the path vacuous -- its remaining obligations hold vacuously -- and go on.
+                c.cache['vacuous'] = True
+                d = True
             else:
                 raise Infeasible()
             c.decisions.append(d)
